@@ -16,6 +16,8 @@ func (f *FileEnt) IsDir() bool {
 }
 
 func (ref *FileEnt) Qid() p9p.Qid {
+	ref.Lock() // Write bumps the qid version under the lock
+	defer ref.Unlock()
 	return ref.Info.Qid
 }
 func (h FileHandle) Qid() p9p.Qid {
@@ -45,17 +47,18 @@ func (ref *FileEnt) OpenDir(ctx context.Context,
 
 	dirs := []p9p.Dir{dotdot}
 	for _, file := range ref.children {
-		dirs = append(dirs, file.Info)
+		info, _ := file.Stat(ctx) // takes the child's lock: its Info changes on write
+		dirs = append(dirs, info)
 	}
 	return (&dirList{dirs, false}).Next, nil
 }
 func (h FileHandle) OpenDir(ctx context.Context) (p9p.ReadNext, error) {
-	var dotdot p9p.Dir
-	if len(h.parents) == 0 {
-		dotdot = withName("..", h.ent.Info)
-	} else {
-		dotdot = withName("..", h.parents[len(h.parents)-1].Info)
+	up := h.ent
+	if len(h.parents) > 0 {
+		up = h.parents[len(h.parents)-1]
 	}
+	info, _ := up.Stat(ctx) // under the entry's lock
+	dotdot := withName("..", info)
 
 	return h.ent.OpenDir(ctx, dotdot)
 }
@@ -204,7 +207,7 @@ func (h FileHandle) Walk(ctx context.Context, names ...string) ([]p9p.Qid, p9p.D
 
 	qids = make([]p9p.Qid, len(ans))
 	for i, a := range ans {
-		qids[i] = a.Info.Qid
+		qids[i] = a.Qid()
 	}
 
 	return qids, rh, nil
@@ -244,6 +247,8 @@ func (h FileHandle) createImpl(fname string, mode uint32) (FileHandle, error) {
 }
 
 func (ref *FileEnt) Stat(ctx context.Context) (p9p.Dir, error) {
+	ref.Lock() // Info is updated by Write and WStat
+	defer ref.Unlock()
 	return ref.Info, nil
 }
 func (h FileHandle) Stat(ctx context.Context) (p9p.Dir, error) {
@@ -251,6 +256,8 @@ func (h FileHandle) Stat(ctx context.Context) (p9p.Dir, error) {
 }
 
 func (ref *FileEnt) WStat(ctx context.Context, dir p9p.Dir) error {
+	ref.Lock() // Info and Data are read by Stat, Read and Write under the lock
+	defer ref.Unlock()
 	if dir.Mode != ^uint32(0) {
 		ref.Info.Mode = dir.Mode
 	}
